@@ -361,8 +361,10 @@ InspFold(insps, i, cw, acc) ==
   IF i > Len(insps) THEN acc
   ELSE LET I == insps[i]
            after == Effect(Without(cw, Sentinel(I).p) \cup {Sentinel(I)}, I.cmd)
+       \* (an inspection named like a step REPLACES that step's entry: its rules are about what IT recorded)
        IN InspFold(insps, i + 1, Without(after, LinkFile(I).p) \cup {LinkFile(I)},
-                   acc @@ (I.name :> [mats |-> cw, prods |-> after, cmd |-> "", byp |-> ""]))
+                   [n \in DOMAIN acc \cup {I.name} |->
+                      IF n = I.name THEN [mats |-> cw, prods |-> after, cmd |-> "", byp |-> ""] ELSE acc[n]])
 
 NoSubInspections == \A i \in 2..Len(scn.docs) : Doc(i).typ = "layout" => Doc(i).inspect = << >>
 
